@@ -1,4 +1,5 @@
 import WV.Model.C07
+import WV.Proofs.C07_Connect
 
 /-! The listening port's lifetime: `stopListening()` is tied to `_listener_d` (generated flags say
 whether by callback and by errback); invariant: while the port is open, `_listener_d` has not fired. -/
@@ -295,7 +296,8 @@ theorem startContenders_get (now : Nat) (hd : Bool) (all : List Contender) :
       · simp at h; simpa using ih seq j c' h
 
 theorem evConnect_Port {w w' : World} (h : PortInv w) (he : evConnect w = some w') : PortInv w' := by
-  unfold evConnect at he
+  rw [evConnect_eq] at he
+  unfold evConnectHead at he
   split at he
   · cases he
   · simp only [] at he
